@@ -400,6 +400,8 @@ def check_add_vars(ctx, F, rule="E-VNM.addvars"):
                     return recv.n
                 if name == "is_empty":
                     return recv.n == 0
+                if name == "named_count":
+                    return getattr(recv, "named", recv.n)
                 return ()
             if isinstance(recv, int) and name == "checked_add":
                 (b,) = it.args(e, env)
@@ -459,6 +461,7 @@ def check_add_vars(ctx, F, rule="E-VNM.addvars"):
         old_names = Rec("vnm", n=2)
         me = Rec("manager", unique_table=[Opaque("level")] * 2, var_level_map=Rec("vlm", n=2), var_name_map=old_names, data=Rec("data", n=0))
         the_map = Rec("map", n=3)
+        the_map.named = 0           # three unnamed variables: still appended behind the existing ones, never adopted
         for trace, (status, val) in enumerate_runs(mk, lambda it: it.call_fn(fids["add_named_vars_from_map"], [me, the_map])):
             n += 1
             delegated = [c for c in me.calls if c[0] == "add_named_vars"]
